@@ -16,6 +16,7 @@ Cmds ==
   \cup {[ev |-> "osc8", ln |-> x] : x \in {0, 1}}
   \cup {[ev |-> "set", m |-> m, v |-> v] : m \in {25, 2026}, v \in BOOLEAN}
   \cup {[ev |-> "ed2"], [ev |-> "scramble"], [ev |-> "cr"]}
+  \cup {[ev |-> "foreign", vis |-> v, shape |-> 3, r |-> Rows + 2, c |-> 0] : v \in BOOLEAN}     \* a cursor left anywhere
 
 Init == t = ED2(InitTerm(Rows, Cols, FALSE)) /\ n = 0
 Next == n < MaxSteps /\ n' = n + 1 /\ \E c \in Cmds : t' = Step(t, c)
